@@ -94,7 +94,7 @@ fn with_sweep<T>(f: impl FnOnce(&SweepTable) -> T) -> T {
 /// every (image, leaf box, size value, count value) pair; quick the first 50 000 singles and the
 /// first 10 000 pairs.
 pub fn sweep_len(tier: crate::runner::Tier) -> u64 {
-    single_len(tier) + pair_len(tier)
+    single_len(tier) + pair_len(tier) + vac_total()
 }
 
 fn single_len(tier: crate::runner::Tier) -> u64 {
@@ -122,6 +122,9 @@ pub fn pair_total() -> u64 {
 
 pub fn sweep_case(i: u64, tier: crate::runner::Tier) -> CorruptCase {
     let sl = single_len(tier);
+    if i >= sl + pair_len(tier) {
+        return vac_case(i - sl - pair_len(tier));
+    }
     if i >= sl {
         return pair_case(i - sl);
     }
@@ -208,6 +211,94 @@ pub fn pair_case(i: u64) -> CorruptCase {
         }
         let split = matches!(spec, SeedSpec::Frag { .. } | SeedSpec::CannedFrag) && (k / PAIRS_PER_BOX) % 2 == 0;
         CorruptCase { seed: spec.clone(), faults, labels, split, init_faults: vec![], late: None, extra_ids: vec![], sweep: true }
+    })
+}
+
+// ---- "vacuous ancestors": images whose boxes all carry 64-bit headers; the outermost enclosing
+// box (or every enclosing box) claims a size with the top bit set - a value that a signed
+// comparison takes for negative - while a leaf inside lies about its size and a count ----
+
+const VAC_SIZES: [u64; 2] = [0x0800_0000, 0x7FFF_FFFF];
+const VAC_COUNTS: [u64; 2] = [0x10_0000, 0x7FFF_FFFF];
+const VAC_PER_LEAF: u64 = 2 * (VAC_SIZES.len() * VAC_COUNTS.len() * PAIR_WORDS.len()) as u64;
+
+struct VacTable {
+    /// (image, cases before it, leaves: (start, hdr, span, offsets of the largesize fields of the enclosing boxes outermost first, path))
+    images: Vec<(SeedSpec, u64, Vec<(u64, u64, u64, Vec<u64>, String)>)>,
+    total: u64,
+}
+
+thread_local! {
+    static VAC: std::cell::OnceCell<VacTable> = const { std::cell::OnceCell::new() };
+}
+
+fn with_vac<T>(f: impl FnOnce(&VacTable) -> T) -> T {
+    VAC.with(|c| {
+        let t = c.get_or_init(|| {
+            let mut images = Vec::new();
+            let mut total = 0u64;
+            for spec in [SeedSpec::All64 { seed: 0 }, SeedSpec::All64 { seed: 1 }, SeedSpec::All64 { seed: 3 }] {
+                let img = build(&spec).bytes;
+                let nodes = crate::boxtree::walk(&img);
+                let mut leaves = Vec::new();
+                for n in nodes.iter().filter(|n| n.kids.is_none() && n.depth >= 1 && n.hdr == 16 && n.end() <= img.len() && n.size >= n.hdr + 8) {
+                    let mut anc = Vec::new();
+                    let mut cur = n.parent;
+                    while let Some(p) = cur {
+                        if nodes[p].hdr == 16 {
+                            anc.push(nodes[p].start as u64 + 8);
+                        }
+                        cur = nodes[p].parent;
+                    }
+                    anc.reverse();
+                    if !anc.is_empty() {
+                        leaves.push((n.start as u64, n.hdr as u64, (n.size - n.hdr) as u64, anc, n.path.clone()));
+                    }
+                }
+                let cnt = leaves.len() as u64 * VAC_PER_LEAF;
+                images.push((spec, total, leaves));
+                total += cnt;
+            }
+            VacTable { images, total }
+        });
+        f(t)
+    })
+}
+
+pub fn vac_total() -> u64 {
+    with_vac(|t| t.total)
+}
+
+pub fn vac_case(i: u64) -> CorruptCase {
+    with_vac(|t| {
+        let i = i % t.total.max(1);
+        let (spec, base, leaves) = t.images.iter().rev().find(|(_, b, _)| *b <= i).expect("vac table");
+        let k = i - base;
+        let (start, hdr, span, anc, path) = &leaves[(k / VAC_PER_LEAF) as usize];
+        let j = k % VAC_PER_LEAF;
+        let all_ancestors = j % 2 == 1;
+        let j = j / 2;
+        let wi = (j % PAIR_WORDS.len() as u64) as usize;
+        let ci = ((j / PAIR_WORDS.len() as u64) % VAC_COUNTS.len() as u64) as usize;
+        let si = (j / (PAIR_WORDS.len() * VAC_COUNTS.len()) as u64) as usize;
+        let word = PAIR_WORDS[wi] as u64;
+        let img = build(spec).bytes;
+        let mut faults = Vec::new();
+        let mut labels = Vec::new();
+        let which: Vec<u64> = if all_ancestors { anc.clone() } else { anc[..1].to_vec() };
+        for off in which {
+            let cur = crate::indep::be64(&img, off as usize);
+            faults.push(StorageFault::SetField { off, width: 8, val: cur | (1u64 << 63) });
+            labels.push("ancestor:largesize".to_string());
+        }
+        // the leaf's own 64-bit size and one of its first words
+        faults.push(StorageFault::SetField { off: *start + 8, width: 8, val: VAC_SIZES[si] });
+        labels.push(format!("{path}:largesize"));
+        if word + 4 <= *span {
+            faults.push(StorageFault::SetField { off: *start + *hdr + word, width: 4, val: VAC_COUNTS[ci] });
+            labels.push(format!("{path}:w{word}"));
+        }
+        CorruptCase { seed: spec.clone(), faults, labels, split: false, init_faults: vec![], late: None, extra_ids: vec![], sweep: true }
     })
 }
 
